@@ -53,8 +53,29 @@ func round8Harmless() []mutant {
 	return out
 }
 
+// round9Harmless: the correct changes of round 9 (refactors/r9/<property>/{a,b,c}.diff: control-flow /
+// error-handling restructurings, data-structure and signature changes, concurrency / resource hygiene).
+func round9Harmless() []mutant {
+	var out []mutant
+	ms, _ := filepath.Glob(filepath.Join(verifDir, "refactors", "r9", "*", "?.diff"))
+	sort.Strings(ms)
+	for _, m := range ms {
+		prop := filepath.Base(filepath.Dir(m))
+		rel, err := filepath.Rel(verifDir, m)
+		if err != nil {
+			continue
+		}
+		id := "h-r9-" + prop + "-" + strings.TrimSuffix(filepath.Base(m), ".diff")
+		if b, err := os.ReadFile(m); err == nil && (strings.Contains(string(b), "faiss_vector") || strings.Contains(string(b), "section_faiss")) {
+			out = append(out, mutant{Harmless: true, ID: id + "-vectors", Patch: rel, Vectors: true})
+		}
+		out = append(out, mutant{Harmless: true, ID: id, Patch: rel})
+	}
+	return out
+}
+
 func harmlessTable() []mutant {
-	return append(append(fixedHarmless(), smallHarmless()...), round8Harmless()...)
+	return append(append(append(fixedHarmless(), smallHarmless()...), round8Harmless()...), round9Harmless()...)
 }
 
 func fixedHarmless() []mutant {
